@@ -476,10 +476,39 @@ Fixpoint fresh_name (fuel : nat) (name n : str) (suffix : N) (c : config) : opti
            end
   end.
 
+(** the [highest] map of transformReqs after all of [l] has been scanned, read at path [p]: the greatest version
+    (semver.Compare; of versions that compare equal the first) among the entries of [l] with that path.  [cur] is
+    the value of highest[p] so far ([None]: no entry yet). *)
+Fixpoint highest_from (p : str) (l : list node) (cur : option version) : option version :=
+  match l with
+  | [] => cur
+  | v :: l' =>
+      highest_from p l' (if str_eqb (fst v) p
+                         then match cur with
+                              | Some c => if is_lt (sem_cmp c (snd v)) then Some (snd v) else cur
+                              | None => Some (snd v)
+                              end
+                         else cur)
+  end.
+
+(** highest[p] (the zero value for a path without entry; never read for such a path) *)
+Definition highest_of (newv : list node) (p : str) : version :=
+  match highest_from p newv None with Some h => h | None => VNone end.
+
+(** what an old name [n] of path [p] is bound to: its own old requirement when the computed list holds exactly that
+    (path, version) - returned[old] -, else the path at the highest version the list holds for it *)
+Definition keep_name (root : config) (newv : list node) (p n : str) : node :=
+  match cfg_get root n with
+  | Some old => if mem old newv then old else (p, highest_of newv p)
+  | None => (p, highest_of newv p)
+  end.
+
+(** first loop of transformReqs, over the computed list: every old name of an entry's path is (re)bound; the value
+    depends on the name and the path only, so neither repeated paths nor the order of the list matter *)
 Definition keep_old (root : config) (newv : list node) : config :=
   fold_left (fun c v => match fst v with
                         | [] => c
-                        | _ => fold_left (fun c n => cfg_set c n v) (names_of root (fst v)) c
+                        | _ => fold_left (fun c n => cfg_set c n (keep_name root newv (fst v) n)) (names_of root (fst v)) c
                         end) newv [].
 
 Fixpoint add_fresh (U : universe) (root : config) (newv : list node) (c : config) : outcome config :=
